@@ -47,7 +47,7 @@ impl Check for C12 {
     }
 
     fn rule(&self) -> String {
-        "case = SimPair scenario (all packets >= 4 bytes so that fragment 0 identifies the submission) with bandwidth ceilings that cut packets across flushes, ack loss / delay / duplication, mode mixes, extra flushes and small latencies so that acks return before the sender's next step(). Oracle over the wire: Unreliable / TimeSensitive (packet, fragment) pairs appear at most once; a TimeSensitive packet's first fragment is emitted in the step epoch of its submission or never; a Persistent / Reliable fragment never reappears after an ack group whose whole span was emitted since the sender's last step() (so the sender provably still knows those frames) has been handed to the sender; no fragment of any packet appears after an accepted ack moved the packet window base past it; packet ids follow submission order with only TimeSensitive packets passed over; after the generated history a fair phase runs until quiescence or a 15-minute stall, at the end of which no Persistent / Reliable fragment the peer still needs may be one that never reached the peer (retransmitted until acknowledged). Non-trivial = at least one such in-epoch ack group was processed while the packet it covers still had unsent or unacknowledged fragments, or a TimeSensitive packet was dropped by the sender.".into()
+        "case = SimPair scenario (all packets >= 4 bytes so that fragment 0 identifies the submission) with bandwidth ceilings that cut packets across flushes, ack loss / delay / duplication, mode mixes, extra flushes and small latencies so that acks return before the sender's next step(). Oracle over the wire: Unreliable / TimeSensitive (packet, fragment) pairs appear at most once; a TimeSensitive packet's first fragment is emitted in the step epoch of its submission or never; a Persistent / Reliable fragment never reappears after an ack group whose whole span was emitted since the sender's last step() (so the sender provably still knows those frames) has been handed to the sender; no fragment of any packet appears after an accepted ack moved the packet window base past it; packet ids follow submission order with only TimeSensitive packets passed over; at every snapshot at which the sender reports is_send_pending() == false, every fragment of every Persistent / Reliable packet in its window has been transmitted at least once; after the generated history a fair phase runs until quiescence or a 15-minute stall, at the end of which no Persistent / Reliable fragment the peer still needs may be one that never reached the peer (retransmitted until acknowledged). Non-trivial = at least one such in-epoch ack group was processed while the packet it covers still had unsent or unacknowledged fragments, or a TimeSensitive packet was dropped by the sender.".into()
     }
 
     fn assumptions(&self) -> Vec<String> {
@@ -192,6 +192,31 @@ impl Check for C12 {
                                     }
                                     classes.push("in_epoch_ack_processed");
                                 }
+                            }
+                        }
+                    }
+                    Ev::Snapshot { stat_idx } => {
+                        // a sender that reports nothing pending has transmitted every fragment of every Persistent /
+                        // Reliable packet in its window at least once (what was never transmitted cannot be on its way to
+                        // being acknowledged; disconnect() takes "nothing pending" for "everything has been handed over")
+                        let st = &trace.stats[s][*stat_idx as usize];
+                        if !st.send_pending {
+                            let mut id = base;
+                            while id != next_id {
+                                if let Some(si) = idmap.id_to_sub.get(&id) {
+                                    let sub = &subs[*si as usize];
+                                    if sub.mode >= 2 {
+                                        let total = last_count.get(&id).copied().unwrap_or(0) as usize + 1;
+                                        let seen = frags_seen.get(&id).map_or(0, |f| f.len());
+                                        if seen < total {
+                                            return CaseResult::fail(
+                                                format!("oracle:c12:nothing_pending_with_untransmitted_fragments:mode{}", sub.mode),
+                                                format!("sender {s} at t={} us reports is_send_pending() == false although only {seen} of the {total} fragments of packet id {id} (submission {}, mode {}, {} bytes) have ever been transmitted and the packet has not been acknowledged", st.t_us, sub.idx, sub.mode, sub.size),
+                                            );
+                                        }
+                                    }
+                                }
+                                id = (id + 1) & PKT_MASK;
                             }
                         }
                     }
